@@ -879,8 +879,11 @@ class H2Stream:
         if self.state_machine.client and self._authority is None:
             self._authority = authority_from_headers(headers)
 
-        # store request method for _initialize_content_length
-        self.request_method = extract_method_header(headers)
+        # store request method for _initialize_content_length: trailers do
+        # not carry one and must not forget it
+        method = extract_method_header(headers)
+        if method is not None:
+            self.request_method = method
 
         return frames
 
@@ -1046,11 +1049,18 @@ class H2Stream:
             events[0].stream_ended = es_events[0]
             events += es_events
 
-        self._initialize_content_length(headers)
-
         if isinstance(events[0], TrailersReceived):
             if not end_stream:
                 raise ProtocolError("Trailers must have END_STREAM set")
+        elif not isinstance(events[0], InformationalResponseReceived):
+            # Only the header block that starts the message declares its
+            # length.
+            self._initialize_content_length(headers)
+
+        if end_stream:
+            # The message ends here: what was received must be what was
+            # declared.
+            self._track_content_length(0, end_stream)
 
         hdr_validation_flags = self._build_hdr_validation_flags(events)
         events[0].headers = self._process_received_headers(
@@ -1319,6 +1329,12 @@ class H2Stream:
             return
 
         for n, v in headers:
+            if n == b':status' and v in (b'204', b'304'):
+                # These responses never have content, whatever their
+                # content-length field says (RFC 7230 section 3.3.2).
+                self._expected_content_length = 0
+                return
+
             if n == b'content-length':
                 try:
                     self._expected_content_length = int(v, 10)
